@@ -39,8 +39,8 @@ func (c *c01) Meta() engine.Meta {
 		Technique: "deviation-bounded exhaustive exploration of block histories on the real application, twin-replica differential oracle",
 		Rule: "default = dense 8-block history (all 8 tx types, validator change, passing governance proposal, unbonding+refund, rewards+withdraw, contract deploy/call); " +
 			"deviation slots: every tx position (drop / replace by one of 24 menu templates, 12 of them failing), an append slot per block, per-block absent-signer pattern, evidence entry, proposer; " +
-			"genesis variants g3 (3 validators, neutral limiter), g1 (1 validator), g4L (4 equal validators, limiter 33/33). " +
-			"Each history runs on replica A and B (separate data directories; thorough: a third replica in another OS process with TZ/GOMAXPROCS changed); compared per call: DeliverTx code/data/gas, EndBlock validator updates (ordered), Commit app hash, Info. " +
+			"genesis variants g3 (3 validators, neutral limiter), g1 (1 validator), g4L (4 equal validators, limiter 33/33), g3s (small-stake history: power-1 stakes, evidence, jailing). " +
+			"Each history runs on replica A and B (separate data directories, B additionally restarted once at a case-dependent height; thorough: a third replica in another OS process with TZ/GOMAXPROCS changed); compared per call: DeliverTx code/data/gas, EndBlock validator updates (ordered), Commit app hash, Info. " +
 			"distinct_nontrivial = histories with at least one successful and one failed transaction.",
 		Assumptions: []string{
 			"Go's map iteration order cannot be enumerated from outside the runtime: each history is executed on 2 (thorough: 3) replicas, so an order dependence is exercised many thousand times but SAMPLED, not enumerated; the exhaustive dimension is the history",
@@ -57,6 +57,8 @@ func (c *c01) build() {
 		c.base[v] = h
 		c.slots[v] = historySlots(h, txMenu(), true)
 	}
+	c.base["g3s"] = smallStakeHistory(genesis3s())
+	c.slots["g3s"] = historySlots(c.base["g3s"], txMenu(), true)
 }
 
 func (c *c01) Prepare(tier string, seed int64) error {
@@ -64,7 +66,7 @@ func (c *c01) Prepare(tier string, seed int64) error {
 	c.build()
 	c.cases = nil
 	maxD := 2
-	for _, v := range []string{"g3", "g1", "g4L"} {
+	for _, v := range []string{"g3", "g1", "g4L", "g3s"} {
 		ss := c.slots[v]
 		d := maxD
 		if v != "g3" {
@@ -183,7 +185,10 @@ func (c *c01) RunDesc(desc json.RawMessage) engine.Result {
 		res.Err = a.Err
 		return res
 	}
-	b := sim.Run(tmpRoot(), h, &sim.Hooks{NoStates: true})
+	// replica B lives in another directory AND in two successive application instances: it is
+	// restarted once, after a height derived from the case (a different process lifetime must not matter).
+	rsAt := int64(1 + int(shortHash(string(desc))[0])%(len(h.Blocks)-1))
+	b := sim.Run(tmpRoot(), h, &sim.Hooks{NoStates: true, RestartAfter: map[int64]bool{rsAt: true}})
 	defer b.Cleanup()
 	la, lb := a.Chain.ConsensusLog(), b.Chain.ConsensusLog()
 	res.Transitions = len(la) + len(lb)
